@@ -143,6 +143,31 @@ def check_case(case, enforce_all=False):
             inside2 = True
     if outside:
         out.labels.append("terms-outside-cone")
+    # (b') the documented way to rotate an operator, U_inv . H . U as a Cauchy product of the outputs with the user's
+    # series, must be just as causal - also on its lower blocks, which the hermitian shortcut takes from the upper ones
+    if form == "blocked" and p["hermitian"] and not symbolic:
+        from pymablock.series import cauchy_dot_product
+
+        r = case["requests"][case["poison_for"] % len(case["requests"])]
+        i, j, n = max(r[1], r[2]), min(r[1], r[2]), tuple(r[3:])
+        try:
+            rotated = cauchy_dot_product(outputs["U_inv"], H, outputs["U"], hermitian=True)
+            start = len(log)
+            with warnings.catch_warnings():
+                warnings.simplefilter("ignore")
+                rotated[(i, j) + n]
+        except Exception as exc:  # noqa: BLE001
+            out.fail("exception", f"(U_inv H U)[{i},{j},{list(n)}] raised {type(exc).__name__}: {str(exc)[:200]}")
+            return out
+        out.labels.append("rotated-product")
+        for idx in log[start:]:
+            if not _le(_orders_of(idx, form), n):
+                out.fail("acausal", f"request (U_inv H U)[{i},{j},{list(n)}] evaluated the Hamiltonian term of order {list(_orders_of(idx, form))}")
+                return out
+            if idx in seen:
+                out.fail("evaluated-twice", f"Hamiltonian element {list(idx)} evaluated a second time (during (U_inv H U)[{i},{j},{list(n)}])")
+                return out
+            seen.add(idx)
     # (c) poisoned fresh computation for one request
     r = case["requests"][case["poison_for"] % len(case["requests"])]
     name, i, j, n = r[0], r[1], r[2], tuple(r[3:])
